@@ -277,6 +277,9 @@ class Summarizer:
             env.setdefault(k, v)
         for p in params:
             env[p] = args[p] if p in args else Sym(("name", p))
+        for extra in (a.vararg, a.kwarg):
+            if extra is not None and extra.arg in args:
+                env[extra.arg] = args[extra.arg]
         st = State(env, guards)
         leaves = []
         for s, status in self.block(fn.body, st):
@@ -565,6 +568,8 @@ class Summarizer:
         actual = {}
         for p, arg in zip(params, n.args):
             actual[p] = self.expr(arg, st)
+        if a.vararg is not None and not any(isinstance(x, ast.Starred) for x in n.args):
+            actual[a.vararg.arg] = tuple(self.expr(x, st) for x in n.args[len(params):])
         for kw in n.keywords:
             actual[kw.arg] = self.expr(kw.value, st)
         # defaults
